@@ -105,6 +105,41 @@ func runC29(c *Ctx) {
 		c.Check(copies, "inject-copies-every-header", "every header the propagator injected is copied into the message metadata under its own key", c.P.Pos(ij.Decl.Pos()), "")
 	})
 
+	c.Rule("fresh-carrier", func() {
+		// the scratch header map handed to the propagator is allocated by the call that uses it: a carrier taken from
+		// shared storage (a pool, a field) can hand one caller's headers to another caller's message
+		n := 0
+		for _, name := range []string{"client.injectMessageMetadata", "client.enrichContext"} {
+			fn := c.Func("internal/remoteclient", name)
+			info := fn.Info()
+			ast.Inspect(fn.Decl.Body, func(nd ast.Node) bool {
+				call, ok := nd.(*ast.CallExpr)
+				if !ok || !isCallNamed(info, call, "Inject") || len(call.Args) != 2 {
+					return true
+				}
+				n++
+				fresh := false
+				if id, ok := ast.Unparen(call.Args[1]).(*ast.Ident); ok {
+					if def := singleLocalDef(info, fn.Decl, info.ObjectOf(id)); def != nil {
+						switch d := ast.Unparen(def).(type) {
+						case *ast.CompositeLit:
+							fresh = true
+						case *ast.CallExpr:
+							if fid, ok := d.Fun.(*ast.Ident); ok && fid.Name == "make" {
+								fresh = true
+							}
+						}
+					}
+				}
+				c.Check(fresh, "fresh-carrier/"+name, "the header carrier passed to Inject is a map allocated in this call (make / literal), used for this message only", c.P.Pos(call.Pos()), "the carrier is "+types.ExprString(call.Args[1])+", not a fresh allocation of this call")
+				return true
+			})
+		}
+		if n < 2 {
+			c.Undecided("fresh-carrier/sites", "Inject call sites found", "-", "found "+itoa(n))
+		}
+	})
+
 	c.Rule("enrich-before-send", func() {
 		enrich := c.FuncObj("internal/remoteclient", "client.enrichContext")
 		n := 0
